@@ -28,16 +28,14 @@ def joinSp : List (List Char) → List Char
 mutual
 /-- `fmt.Sprintf("%v", x)` (`badVerb = false`) or `"%s"` (`badVerb = true`: every
     non-string leaf becomes `%!s(type=value)`) of the value `encoding/json` decodes
-    into an `any`. -/
+    into an `any` with `UseNumber()` (numbers are `json.Number`, i.e. their literal text). -/
 def goFmt (badVerb : Bool) : JVal → List Char
   | .null => "<nil>".toList   -- nested nil; a top-level nil operand is handled by `fmtAsset`
   | .bool b =>
     let v := if b then "true".toList else "false".toList
     if badVerb then "%!s(bool=".toList ++ v ++ [')'] else v
   | .str s => s.toList
-  | .num n =>
-    let v := fmtFloatV n
-    if badVerb then "%!s(float64=".toList ++ v ++ [')'] else v
+  | .num n => n.text   -- `json.Number` (decoded with UseNumber) is a string: printed as written
   | .arr xs => '[' :: joinSp (goFmtList badVerb xs) ++ [']']
   | .obj kvs =>
     "map[".toList ++ joinSp ((sortKeys (mapOfList (goFmtFields badVerb kvs))).map
@@ -82,10 +80,10 @@ end
 
 /-! ## v1: `Script.ToCore` -/
 
-/-- What the real code does with a variable that is neither a JSON string nor an
-    object/null: `panic(err)`.  (After the proposed fix this line becomes
-    `.clientError "VALIDATION"`.) -/
-def v1NonStringScalar : Res String := .fault "panic: json: cannot unmarshal into Go value of type string"
+/-- A variable that is neither a JSON string nor an object/null: since the fix of
+    `Script.ToCore` an error ("invalid value for variable"), answered 400 VALIDATION
+    (before it: `panic(err)`, i.e. this line was `.fault …`). -/
+def v1NonStringScalar : Res String := .clientError "VALIDATION"
 
 /-- `json.Unmarshal(raw, *big.Int)`; `none` = member absent (empty RawMessage). -/
 def decBigIntRaw : Option JVal → Dec Int
@@ -137,13 +135,9 @@ def decodeVarsV1 : Option JVal → Res VarMap
 
 /-! ## v2: `ScriptV1.ToCore` -/
 
-/-- `fmt.Sprintf("%s %d", v["asset"], int(amount))` for a float64 amount: the
-    amount goes through the nearest double and Go's `int()` conversion.
-    (After the proposed fix — `UseNumber` / `json.Number` — this is
-    `showInt n.intVal` for integer literals.) -/
-def v2AmountInt (n : JNum) : Int := goIntOfF64 n.neg ((n.f64Abs).getD 0)
-
-def v2NumericAmount (n : JNum) : List Char := showInt (v2AmountInt n)
+/-- `fmt.Sprintf("%s %s", v["asset"], amount.String())` for a `json.Number` amount:
+    the literal text, untouched (before the fix: nearest float64 then `int()`). -/
+def v2NumericAmount (n : JNum) : List Char := n.text
 
 def fmtAsset : Option JVal → List Char
   | none => "%!s(<nil>)".toList
@@ -175,9 +169,7 @@ def varsV2Loop : List (String × JVal) → VarMap
 /-- The `vars` member of a v2 script (`Dec`: it cannot fault). -/
 def decodeVarsV2D : Option JVal → Dec VarMap
   | none | some .null => .ok []
-  | some (.obj kvs) =>
-    if hasF64OverflowFields kvs then .error "json: number out of float64 range"
-    else .ok (varsV2Loop (mapOfList kvs))
+  | some (.obj kvs) => .ok (varsV2Loop (mapOfList kvs))
   | some _ => .error "json: cannot unmarshal into map"
 
 def decodeVarsV2 (v : Option JVal) : Res VarMap := Res.ofDec (decodeVarsV2D v)
